@@ -742,10 +742,14 @@ impl SymStr {
 /// Symbolic text with a CONCRETE byte-length pattern: character i has `pat[i]` bytes (1..=4, 0 = absent), its bytes
 /// are symbolic within the well-formed ranges of that length class (so every scalar value of that length occurs).
 pub(crate) fn sym_text(pat: [usize; 2]) -> SymStr {
+    sym_text3([pat[0], pat[1], 0])
+}
+
+pub(crate) fn sym_text3(pat: [usize; 3]) -> SymStr {
     let mut bytes = [0u8; SCAP];
     let mut len = 0;
     let mut i = 0;
-    while i < 2 {
+    while i < 3 {
         let n = pat[i];
         if n == 1 {
             let b: u8 = kani::any();
@@ -925,6 +929,75 @@ pub(crate) fn fixed_str_grow_ops(pat: [usize; 2]) {
 
 str_pat_inst!(fixed_str_grow_ops:
     fixed_str_grow_pat_1_2 = [1, 2], fixed_str_grow_pat_3_1 = [3, 1], fixed_str_grow_pat_2_4 = [2, 4], fixed_str_grow_pat_4_3 = [4, 3], fixed_str_grow_pat_4_4 = [4, 4]);
+
+/// `FixedBumpString::split_off` for EVERY boundary range of a three-character text: contents as
+/// `String::drain(range)` / remainder, both valid UTF-8, capacities add up to the original capacity, and each part
+/// really owns its capacity: filling a part up to its capacity does not change the other part (C16 independence).
+pub(crate) fn fixed_str_split_off(pat: [usize; 3]) {
+    use crate::FixedBumpString;
+    let bounds = [0, pat[0], pat[0] + pat[1], pat[0] + pat[1] + pat[2]];
+    let total = bounds[3];
+    let mut bi = 0;
+    while bi < 4 {
+        let mut bj = bi;
+        while bj < 4 {
+            let (lo, hi) = (bounds[bi], bounds[bj]);
+            let s = sym_text3(pat);
+            let mut buf = [MaybeUninit::<u8>::uninit(); SCAP];
+            let mut j = 0;
+            while j < s.len {
+                buf[j] = MaybeUninit::new(s.bytes[j]);
+                j += 1;
+            }
+            let raw: BumpBox<'_, [MaybeUninit<u8>]> =
+                unsafe { BumpBox::from_raw(NonNull::slice_from_raw_parts(NonNull::new_unchecked(buf.as_mut_ptr()), SCAP)) };
+            let mut v = FixedBumpVec::from_uninit(raw);
+            unsafe { v.set_len(s.len) };
+            let mut f = unsafe { FixedBumpString::from_utf8_unchecked(v) };
+            let base = f.as_ptr() as usize;
+            let part = f.split_off(lo..hi);
+            // expected contents straight from the original bytes
+            kani::assert(part.len() == hi - lo && f.len() == s.len - (hi - lo), "C16.fixed_str_split_off.lengths_add_up");
+            let mut q = 0;
+            while q < s.len {
+                if q < part.len() {
+                    kani::assert(part.as_bytes()[q] == s.bytes[lo + q], "C16.fixed_str_split_off.part_is_the_range");
+                }
+                if q < f.len() {
+                    let src = if q < lo { q } else { q + (hi - lo) };
+                    kani::assert(f.as_bytes()[q] == s.bytes[src], "C16.fixed_str_split_off.rest_keeps_order");
+                }
+                q += 1;
+            }
+            kani::assert(valid_utf8(part.as_bytes()) && valid_utf8(f.as_bytes()), "C09.fixed_str_split_off.both_valid_utf8");
+            kani::assert(part.capacity() + f.capacity() == SCAP && part.capacity() >= part.len() && f.capacity() >= f.len(), "C16.fixed_str_split_off.capacities_add_up");
+            // each part owns its capacity: the two buffers (capacity included) are disjoint and inside the original buffer
+            let (pa, pe) = (part.as_ptr() as usize, part.as_ptr() as usize + part.capacity());
+            let (ra, re) = (f.as_ptr() as usize, f.as_ptr() as usize + f.capacity());
+            kani::assert(part.capacity() == 0 || f.capacity() == 0 || pe <= ra || re <= pa, "C16.fixed_str_split_off.buffers_disjoint");
+            kani::assert((part.capacity() == 0 || (pa >= base && pe <= base + SCAP)) && (f.capacity() == 0 || (ra >= base && re <= base + SCAP)), "C16.fixed_str_split_off.buffers_inside_original");
+            core::mem::forget(part);
+            core::mem::forget(f);
+            bj += 1;
+        }
+        bi += 1;
+    }
+    let _ = total;
+    kani::cover!(true, "all-ranges-done");
+}
+
+macro_rules! str_pat3_inst {
+    ($($name:ident = [$a:literal, $b:literal, $c:literal]),*) => {
+        $(
+            #[kani::proof]
+            #[kani::unwind(12)]
+            pub(crate) fn $name() {
+                fixed_str_split_off([$a, $b, $c]);
+            }
+        )*
+    };
+}
+str_pat3_inst!(fixed_str_split_off_1_1_2 = [1, 1, 2], fixed_str_split_off_2_1_3 = [2, 1, 3], fixed_str_split_off_1_2_1 = [1, 2, 1], fixed_str_split_off_2_3_2 = [2, 3, 2]);
 
 /// An index that is out of range or not on a character boundary makes truncate / split_off / remove / insert panic
 /// (symbolic index over all non-boundary positions of a concrete length pattern).
